@@ -42,6 +42,7 @@ Definition dec_ending (v : val) : ending :=
   match as_n (nth_val 0 v) with
   | 0%N => CleanEOF
   | 1%N => ReadError (EReader (as_n (nth_val 1 v)))
+  | 3%N => ReadError ETooLong   (* the scripted bytes are followed by a line longer than the maximum event size *)
   | _ => ReadError ECtx
   end.
 
